@@ -36,10 +36,18 @@ TNext ==
             IF pend # << >>
             THEN LET nb == Push(b, pend[1], pend[2], pend[3], e.base)
                      moved == nb.cap # b.cap \/ b.cap = 0
-                 IN /\ b' = nb /\ pend' = << >>
-                    /\ viol' = viol \cup V(nb.len # e.len \/ nb.cap # e.cap \/ (~moved /\ e.base # b.base), "DRIFT",
+                     \* follow the decisions the code actually took (did it allocate a new buffer?)
+                     grew == e.cap # b.cap
+                     fresh == [base |-> e.base, cap |-> e.cap, len |-> 0, items |-> << >>]
+                     ob0 == IF grew THEN (IF b.len # 0 THEN Place(fresh, 0, ChainSize, VP, <<b>>) ELSE fresh) ELSE b
+                     ob == Place(ob0, pend[1], pend[2], pend[3], << >>)
+                     same == nb.len = e.len /\ nb.cap = e.cap /\ (moved \/ e.base = b.base)
+                 IN /\ b' = (IF same THEN nb ELSE ob) /\ pend' = << >>
+                    /\ viol' = viol \cup V(~same, "DRIFT",
                                            "flat queue storage (len/cap/base) differs from FlatQueue.tla after a push")
-                                    \cup V(~BufOk(nb), "DRIFT", "model buffer invariant broken")
+                                    \cup V(e.len > e.cap \/ (~same /\ ob.len > ob.cap), "C16",
+                                           "flat queue wrote a closure beyond the end of its buffer")
+                                    \cup V(same /\ ~BufOk(nb), "DRIFT", "model buffer invariant broken")
                     /\ UNCHANGED <<which, obs, exp>>
             ELSE \* after execute
                  /\ viol' = viol \cup V(e.len # 0, "C17", "flat queue not empty after execute")
@@ -63,7 +71,7 @@ TNext ==
        [] e.e = "qdroppedq" -> /\ obs' = Obs(<<"droppedq">>) /\ UNCHANGED <<b, which, exp, viol, pend>>
        [] e.e = "qend" -> /\ obs' = Obs(<<"end">>) /\ UNCHANGED <<b, which, exp, viol, pend>>
        [] e.e = "qcrash" ->
-            /\ viol' = viol \cup {<<"C17", "process aborted while driving the " \o e.which \o " queue: " \o e.msg, l>>}
+            /\ viol' = viol \cup {<<p, "process aborted while driving the " \o e.which \o " queue: " \o e.msg, l>> : p \in {"C17", "C16"}}
             /\ UNCHANGED <<b, which, obs, exp, pend>>
        [] e.e = "qcaseend" ->
             /\ viol' = viol \cup V(obs.flat # obs.boxed, "C17", "flat and boxed queue differ in observable behaviour (run order / data / drops / is_empty)")
